@@ -123,8 +123,8 @@ static void *procfunc(struct cmb_process *self, void *vctx)
             if (a1 >= npool || a2 <= 0 || (uint64_t)a2 > cmb_resourcepool_held_by_process(pools[a1], self)) SKIP();
             else { cmb_resourcepool_release(pools[a1], (uint64_t)a2); RET(0); }
         }
-        else if (!strcmp(o, "bget")) { if (a1 >= nbuf) SKIP(); else { uint64_t amt = (uint64_t)a2; const int64_t r = cmb_buffer_get(bufs[a1], &amt); RETX(r, "amt=%" PRIu64, amt); } }
-        else if (!strcmp(o, "bput")) { if (a1 >= nbuf || a2 <= 0) SKIP(); else { uint64_t amt = (uint64_t)a2; const int64_t r = cmb_buffer_put(bufs[a1], &amt); RETX(r, "amt=%" PRIu64, amt); } }
+        else if (!strcmp(o, "bget")) { if (a1 >= nbuf) SKIP(); else { uint64_t amt = strtoull(c->w[2], NULL, 10); const int64_t r = cmb_buffer_get(bufs[a1], &amt); RETX(r, "amt=%" PRIu64, amt); } }
+        else if (!strcmp(o, "bput")) { if (a1 >= nbuf || strtoull(c->w[2], NULL, 10) == 0u) SKIP(); else { uint64_t amt = strtoull(c->w[2], NULL, 10); const int64_t r = cmb_buffer_put(bufs[a1], &amt); RETX(r, "amt=%" PRIu64, amt); } }
         else if (!strcmp(o, "oget")) { if (a1 >= noq) SKIP(); else { void *obj = (void *)(uintptr_t)77; const int64_t r = cmb_objectqueue_get(oqs[a1], &obj); RETX(r, "obj=%" PRIu64, (uint64_t)(uintptr_t)obj); } }
         else if (!strcmp(o, "oput")) { if (a1 >= noq) SKIP(); else RET(cmb_objectqueue_put(oqs[a1], (void *)(uintptr_t)a2)); }
         else if (!strcmp(o, "kget")) { if (a1 >= npq) SKIP(); else { void *obj = (void *)(uintptr_t)77; const int64_t r = cmb_priorityqueue_get(pqs[a1], &obj); RETX(r, "obj=%" PRIu64, (uint64_t)(uintptr_t)obj); } }
